@@ -5,6 +5,11 @@ ROOT = os.path.join(os.path.dirname(os.path.abspath(__file__)), "..")
 props = [json.loads(l) for l in open(os.path.join(ROOT, "properties.jsonl")) if l.strip()]
 
 CLAIMS = {
+    "C15": dict(
+        text="Lean 4 theorem Bp7.C15.json_roundtrip: for every well-formed bundle (fragment or not, every CRC type, every prior CRC state, any number of blocks) parsing the JSON value produced by to_json yields the bundle as it is after serialisation. The model runs the same visitors as the CBOR codec, driven by a sequence access without size hint (serde_json), where fix F5 lets the fragment flag decide the two fragment fields. Tie to the code: the real to_json text is compared byte for byte with the model's compact JSON text (incl. escaping of quotes, backslashes, control characters, non-ASCII names), and the real try_from(String) result with the model's.",
+        note="Trusted: Lean kernel; axioms propext, Quot.sound; serde_json's text syntax (printer/parser of arrays, integers, strings) is modelled at the value-tree level and validated only by correspondence; JSON input not produced by the writer is outside the model.",
+        technique="Lean 4 proof (per-visitor round-trip lemmas, induction on the block list) + differential correspondence check",
+        design="§6 C15"),
     "C08": dict(
         text="Lean 4 theorems over unbounded naturals (so every u8/u64/u128 value is covered): update_false_iff — the model of update_extensions returns false iff hop count + 1 > limit, or age + residence time > lifetime (ms), or creation time ≠ 0 and creation time + lifetime ≤ now; update_true_frame — when it returns true the primary block is unchanged and the block list differs only in the present hop-count (exactly +1, no saturation/wrap), bundle-age (exactly + residence time) and previous-node block. Tie to the code: the real update_extensions under the mock clock hook vs the model on all 65 536 (limit,count) pairs and boundary-biased combinations incl. residence times up to 2^128-1; return value and whole resulting bundle compared; the oracle is a third statement of the rule in u128 arithmetic; the three comparison expressions are re-extracted from the source and re-proved equal to what the model assumes on every run.",
         note="Trusted: Lean kernel; axioms propext, Classical.choice, Quot.sound; the mock clock hook (cfg bp7_verif) returns the supplied time; Duration::as_millis floors.",
